@@ -534,10 +534,17 @@ class StmtMixin(CallMixin):
                     ty = a.ty
                 except UnsupportedError:
                     pass
-            head.locals[name] = V.fresh(ty, "lv_" + name)
+            head.locals[name] = self.wf(head, V.fresh(ty, "lv_" + name))
         for (rec, field) in sorted(wh):
             _, fty = S.lookup_field(rec, field)
-            head.heap.havoc_field(rec, field, fty)
+            cells = wh[(rec, field)]
+            stable = None not in cells and all(self.is_stable_ref(t) for t in cells.values())
+            if stable:
+                # only cells of loop-invariant references (parameters) are written: havoc just those
+                for t in cells.values():
+                    head.heap.write(rec, field, fty, t, V.fresh(fty, "lc_" + field))
+            else:
+                head.heap.havoc_field(rec, field, fty)
         for g in sorted(wg):
             head.ghost[g] = V.fresh(S.GHOST[g], "G_" + g)
         if is_for:
@@ -550,8 +557,9 @@ class StmtMixin(CallMixin):
         # re-note writes for an enclosing discovery
         for name in wl:
             self.note_local_write(head, name)
-        for (rec, field) in wh:
-            self.note_heap_write(head, rec, field)
+        for (rec, field), cells in wh.items():
+            for t in cells.values():
+                self.note_heap_write(head, rec, field, t)
         if head.written_ghost is not None:
             head.written_ghost |= wg
         self.assume_invariant(inv_texts, head, ordinal)
@@ -644,6 +652,10 @@ class StmtMixin(CallMixin):
             e.trace.append(f"L{line}:loop#{ordinal} exit")
             yield from self.exec_block(node.orelse, e)
 
+    def is_stable_ref(self, t):
+        """A reference term that cannot change inside a loop: a parameter of the verified function."""
+        return t is not None and z3.is_const(t) and t.decl().kind() == z3.Z3_OP_UNINTERPRETED and t.decl().name().startswith("p_")
+
     def check_invariant(self, texts, st, kind, desc, line):
         if self.discovering:
             return
@@ -672,7 +684,7 @@ class StmtMixin(CallMixin):
         """Run the body once without pruning to find every local / heap field / ghost variable
         the loop can write (the havoc set)."""
         d = st.clone()
-        d.written_locals, d.written_heap, d.written_ghost = set(), set(), set()
+        d.written_locals, d.written_heap, d.written_ghost = set(), {}, set()
         wtypes = {}
         self.discovering += 1
         saved = (self.n_paths, dict(self.loop_ids), self.loop_ordinal, dict(self.used_assumed), dict(self.used_inlined))
